@@ -607,16 +607,14 @@ class Subscription(BaseSubscription):
         if filter_obj.until is not None:
             subwhere.append("created_at < %d" % filter_obj.until)
         if filter_obj.tags:
+            if not all(tags for tagname, tags in filter_obj.tags):
+                # a condition with no values cannot match anything
+                raise ValueError("tags")
             for tagname, tags in filter_obj.tags:
-                pstr = []
-                for val in tags:
-                    if val:
-                        pstr.append(self.bind(val))
-                if pstr:
-                    pstr = ",".join(pstr)
-                    subwhere.append(
-                        f"id IN (SELECT id FROM tags WHERE name = {self.bind(tagname)} AND value IN ({pstr})) "
-                    )
+                pstr = ",".join(self.bind(val) for val in tags)
+                subwhere.append(
+                    f"id IN (SELECT id FROM tags WHERE name = {self.bind(tagname)} AND value IN ({pstr})) "
+                )
         return filter_obj
 
     def bind(self, value):
